@@ -23,6 +23,13 @@ def make_wl(rng, k):
     spec["mapq_mix"] = 1 if (k is not None and k % 2 == 1) or (k is None and rng.random() < 0.5) else 0
     if spec["mapq_mix"] and rng.random() < 0.3:
         opts["extra"] = ["--min_mapq", str(rng.choice([4, 5, 10, 20]))]
+    if k is not None and k % 8 == 0:
+        # killed while reads are collected, after the first chromosomes are done; resumed with --high_memory (or without it)
+        spec["long_locus"] = 1
+        spec["chr_order"] = 0
+        opts["force_fault"] = {"kind": "kill", "stage": "collect", "label_rx": r"_collected$", "nth": -1 - (k // 8) % 2, "phase": "after",
+                               "resume": {"high_memory": (k // 8) % 2 == 0}}
+        opts["force_cell"] = {"high_memory": (k // 8) % 2 == 1, "threads": 1}
     if k is not None and k % 8 == 4:
         # the resolver is also what collapses the two copies of an alignment processed in two sub-regions
         spec["long_locus"] = 1
